@@ -506,7 +506,7 @@ def run(ctx):
     quick = ctx.quick
     fixed = fixed_scenarios()
     bound = 2 if quick else 3   # quick: <= 1 complete, <= 2 capped; thorough: <= 2 complete, <= 3 capped
-    per_scn = 1200 if quick else 30000   # cap on the runs per fixed scenario (spread over the first-level subtrees)
+    per_scn = 1200 if quick else 22000   # cap on the runs per fixed scenario (spread over the first-level subtrees)
     n_rand_tasks = 32 if quick else 256
     rand = [(ctx.rng.getrandbits(48), 30 if quick else 150, False) for _ in range(n_rand_tasks)]
     line = [(ctx.rng.getrandbits(48), 3 if quick else 15, True) for _ in range(16 if quick else 96)]
